@@ -128,13 +128,12 @@ func (x *XRefParser) FindXRef() (int64, error) {
 
 	// Parse the offset after startxref
 	afterStartXRef := content[idx+len("startxref"):]
-	lines := strings.Split(afterStartXRef, "\n")
-	if len(lines) < 2 {
+	// The offset is the next token; the line may end in LF, CR LF or a bare CR
+	fields := strings.Fields(afterStartXRef)
+	if len(fields) < 1 {
 		return 0, fmt.Errorf("invalid startxref format")
 	}
-
-	// The offset should be on the next line
-	offsetStr := strings.TrimSpace(lines[1])
+	offsetStr := fields[0]
 	offset, err := strconv.ParseInt(offsetStr, 10, 64)
 	if err != nil {
 		return 0, fmt.Errorf("invalid xref offset: %w", err)
@@ -178,6 +177,7 @@ func (x *XRefParser) ParseXRef(offset int64) (*XRefTable, error) {
 // streams start with an object definition like "5 0 obj".
 func (x *XRefParser) isXRefStream() (bool, error) {
 	scanner := bufio.NewScanner(x.reader)
+	scanner.Split(scanPDFLines)
 	if !scanner.Scan() {
 		return false, fmt.Errorf("failed to read first line")
 	}
@@ -203,10 +203,40 @@ func (x *XRefParser) isXRefStream() (bool, error) {
 	return false, fmt.Errorf("unrecognized xref format: %s", line)
 }
 
+// scanPDFLines is a bufio.SplitFunc that ends a line at LF, CR LF or a bare CR
+// (ISO 32000-1 7.2.3), unlike bufio.ScanLines which only knows LF and CR LF.
+func scanPDFLines(data []byte, atEOF bool) (advance int, token []byte, err error) {
+	if atEOF && len(data) == 0 {
+		return 0, nil, nil
+	}
+	for i, b := range data {
+		if b == '\n' {
+			return i + 1, data[:i], nil
+		}
+		if b == '\r' {
+			if i+1 < len(data) {
+				if data[i+1] == '\n' {
+					return i + 2, data[:i], nil
+				}
+				return i + 1, data[:i], nil
+			}
+			if atEOF {
+				return i + 1, data[:i], nil
+			}
+			return 0, nil, nil // need more data to see whether LF follows
+		}
+	}
+	if atEOF {
+		return len(data), data, nil
+	}
+	return 0, nil, nil
+}
+
 // parseTraditionalXRef parses a traditional xref table (PDF 1.0-1.4).
 // The format is: "xref\n<subsections>\ntrailer\n<dict>\nstartxref\n<offset>\n%%EOF"
 func (x *XRefParser) parseTraditionalXRef() (*XRefTable, error) {
 	scanner := bufio.NewScanner(x.reader)
+	scanner.Split(scanPDFLines)
 
 	// Read "xref" keyword
 	if !scanner.Scan() {
